@@ -10,6 +10,7 @@ import (
 	"fmt"
 	"math"
 	"strings"
+	"sync"
 	"time"
 
 	"github.com/hashicorp/eventlogger"
@@ -151,6 +152,7 @@ type Obs struct {
 const ProbeTokBase = 1 << 20
 
 type rec struct {
+	mu              sync.Mutex // the filter need not serialise its calls into user code
 	composes        []ComposeCall
 	sends           []SendCall
 	armCompose      bool
@@ -185,6 +187,8 @@ func (e *ev) ComposeFrom(events []*eventlogger.Event) (eventlogger.EventType, in
 		}
 	}
 	r := e.r
+	r.mu.Lock()
+	defer r.mu.Unlock()
 	switch {
 	case r.armCompose:
 		r.armCompose = false
@@ -217,6 +221,8 @@ type composite struct{ toks []int }
 type sender struct{ r *rec }
 
 func (s *sender) Send(_ context.Context, _ eventlogger.EventType, payload interface{}) (eventlogger.Status, error) {
+	s.r.mu.Lock()
+	defer s.r.mu.Unlock()
 	c := SendCall{}
 	if _, ok := payload.(gated.Gateable); ok {
 		c.Gateable = true
@@ -395,5 +401,13 @@ func (c *Conc) Event(id string, flush bool, tok int) *eventlogger.Event {
 func (c *Conc) Sender() gated.Sender { return &sender{r: c.r} }
 
 // Composes returns the ComposeFrom calls recorded so far (call after quiescence).
-func (c *Conc) Composes() []ComposeCall { return c.r.composes }
-func (c *Conc) Sends() []SendCall       { return c.r.sends }
+func (c *Conc) Composes() []ComposeCall {
+	c.r.mu.Lock()
+	defer c.r.mu.Unlock()
+	return append([]ComposeCall(nil), c.r.composes...)
+}
+func (c *Conc) Sends() []SendCall {
+	c.r.mu.Lock()
+	defer c.r.mu.Unlock()
+	return append([]SendCall(nil), c.r.sends...)
+}
